@@ -169,7 +169,7 @@ def run(chk):
     build_harness()
     quick = chk.tier == "quick"
     r = random.Random(chk.seed)
-    shapes = T.tlc_trees(chk, 4 if quick else 5, 400 if quick else 100000, chk.seed) + T.tlc_trees(chk, 5, 200 if quick else 3000, chk.seed + 2)
+    shapes = T.tlc_trees(chk, 4 if quick else 5, 400 if quick else 100000, chk.seed) + (T.tlc_trees(chk, 6, 200, chk.seed + 2, which="random") if quick else T.tlc_trees(chk, 5, 3000, chk.seed + 2))
     shapes = [t for t in shapes if not T.uses_components(t)]
     cases = []
     for n, t in enumerate(shapes):
